@@ -19,6 +19,7 @@ CONSTANTS
   EmitDyn = FALSE
   MaxHist = 0
   MaxReorders = 0
+  NewKs = {}
   NameOrder <- TimesT
   BuildCfgs <- TimesT
   IntegrCfgs <- TimesT
